@@ -422,13 +422,26 @@ impl Catalog {
                         let mut tuple = Tuple::from_slice_unchecked(bytes)?;
                         let xmin = tuple.xmin();
 
-                        let freed = if snapshot.is_transaction_aborted(xmin) || tuple.is_deleted() {
+                        // A delete mark counts only if the deleter committed: a rolled-back
+                        // (or still unfinished, hence just aborted) DELETE leaves the row alive.
+                        let deleted = tuple
+                            .xmax()
+                            .is_some_and(|xmax| snapshot.is_committed_before_snapshot(xmax));
+
+                        let freed = if snapshot.is_transaction_aborted(xmin) || deleted {
                             let freed = tuple.full_data().len();
                             tuples_to_remove.push(tuple);
                             freed
                         } else {
+                            // The mark of a deleter that did not commit is erased: the coordinator
+                            // forgets finished transactions below the horizon, after which the mark
+                            // would be taken for a committed delete.
+                            let unmarked = tuple.is_deleted();
+                            if unmarked {
+                                tuple.clear_delete_mark();
+                            }
                             let freed = tuple.vaccum_with(oldest_active_xid, schema)?;
-                            if freed > 0 {
+                            if freed > 0 || unmarked {
                                 tuples_to_vaccum.push(tuple);
                             };
                             freed
